@@ -6,6 +6,7 @@
 //   C06_GROUP 4    : const bound value, fixed_uint8/16/32_value, cstring_value, fixed_blob_value x {-, no_read_access}
 //   C06_GROUP 5    : free_read/raw_write handlers, free_read_blob/write_blob handlers, read-only, write-only and typed
 //                    write handler x permission sets
+//   C06_GROUP 11   : bind_characteristic_value< uint8_t[300] > (offsets >= 256 are valid)
 //   (C06_GROUP 0..10 split these for parallel compilation); every configuration is explored with MTU 23 and MTU 65
 //   (server max_mtu_size<65>, the client MTU of the connection decides).
 #ifdef C06_FAST_BUILD
@@ -41,8 +42,14 @@ ARENA std::uint8_t  a_hbuf[ 30 ];     // storage behind the read / write handler
 ARENA std::uint8_t  g5[ 8 ];
 ARENA std::uint8_t  a_nbr[ 3 ];       // neighbour characteristic
 ARENA std::uint8_t  g6[ 8 ];
+#if C06_GROUP == 11
+ARENA std::uint8_t  a_b300[ 300 ];    // a value longer than 255 octets: offsets >= 256 are valid (only in its own unit: keeps the state image of the others small)
+ARENA std::uint8_t  g7[ 8 ];
+#else
+std::uint8_t        a_b300[ 300 ];    // unused
+#endif
 extern "C" std::uint8_t __start_c06_arena[], __stop_c06_arena[];
-constexpr std::size_t ARENA_MAX = 256;
+constexpr std::size_t ARENA_MAX = 640;
 inline std::size_t arena_size() { return std::size_t( __stop_c06_arena - __start_c06_arena ); }
 inline int arena_off( const void* p ) { return int( static_cast< const std::uint8_t* >( p ) - __start_c06_arena ); }
 
@@ -55,6 +62,7 @@ void arena_init()
     for ( int i = 0; i != 30; ++i ) a_a30[ i ] = std::uint8_t( 0x60 + i );
     for ( int i = 0; i != 30; ++i ) a_hbuf[ i ] = std::uint8_t( 0x80 + i );
     a_nbr[ 0 ] = 0x11; a_nbr[ 1 ] = 0x22; a_nbr[ 2 ] = 0x33;
+    for ( int i = 0; i != 300; ++i ) a_b300[ i ] = std::uint8_t( i + 37 * ( i >> 8 ) + 1 );    // octet i differs from octet i mod 256
 }
 
 // ---- constant values --------------------------------------------------------------------------------------------------
@@ -102,7 +110,7 @@ std::uint8_t h_write_u16( std::uint16_t v )
 }
 
 // ---- value kinds and permission sets ----------------------------------------------------------------------------------
-enum { K_B1, K_B4, K_B20, K_B30, K_CONST, K_F8, K_F16, K_F32, K_CSTR, K_FBLOB, K_HRW, K_HBLOB, K_HRO, K_HWO, K_HTYPED };
+enum { K_B1, K_B4, K_B20, K_B30, K_CONST, K_F8, K_F16, K_F32, K_CSTR, K_FBLOB, K_HRW, K_HBLOB, K_HRO, K_HWO, K_HTYPED, K_B300 };
 enum { P_NONE, P_NR, P_NW, P_WWR, P_OWWR, P_NR_NW, P_NR_NOTIFY };
 const char* const perm_names[] = { "plain", "no_read_access", "no_write_access", "write_without_response", "only_write_without_response",
                                    "no_read_access+no_write_access", "no_read_access+notify" };
@@ -124,6 +132,7 @@ const KindInfo kinds[] = {
     /* K_HRO   */ { "handler-read-only", "handler",        H_CAP,  true,  false, false, false, -1, a_hbuf, nullptr },
     /* K_HWO   */ { "handler-write-only", "handler",       H_CAP,  false, true,  false, false, -1, a_hbuf, nullptr },
     /* K_HTYPED*/ { "handler-typed-uint16-write", "handler", 2,    false, true,  false, false, 2,  a_hbuf, nullptr },
+    /* K_B300  */ { "bound-array300",   "bound",           300, true, true,  true,  true,  -1, a_b300, nullptr },
 };
 
 template < int K > struct kind_opts;
@@ -141,6 +150,7 @@ template <> struct kind_opts< K_HRW >   { using type = std::tuple< bluetoe::free
 template <> struct kind_opts< K_HBLOB > { using type = std::tuple< bluetoe::free_read_blob_handler< &h_read_blob >, bluetoe::free_write_blob_handler< &h_write_blob > >; };
 template <> struct kind_opts< K_HRO >   { using type = std::tuple< bluetoe::free_read_handler< &h_read > >; };
 template <> struct kind_opts< K_HWO >   { using type = std::tuple< bluetoe::free_raw_write_handler< &h_write > >; };
+template <> struct kind_opts< K_B300 >  { using type = std::tuple< bluetoe::bind_characteristic_value< std::uint8_t[ 300 ], &a_b300 > >; };
 template <> struct kind_opts< K_HTYPED >{ using type = std::tuple< bluetoe::free_write_handler< std::uint16_t, &h_write_u16 > >; };
 
 template < int P > struct perm_opts;
@@ -334,6 +344,10 @@ struct World
         else for ( int i : { 0, 1, 2, n - 1, n, n + 1 } ) { lens.push_back( i ); offs.push_back( i ); }
         add( E_READ, 0, 0, 0, "Read(value)" );
         for ( int o : offs ) add( E_READ_BLOB, o, 0, 0, mc::fmt( "ReadBlob(value, offset %d)", o ) );
+        // offsets that do not fit into one octet (a narrowed offset would land inside the value again)
+        std::vector< int > big;
+        for ( int o : { 255, 256, 257, 256 + n - 1, 512, 0x0201, 0xFF00 } ) if ( std::find( big.begin(), big.end(), o ) == big.end() ) big.push_back( o );
+        for ( int o : big ) if ( std::find( offs.begin(), offs.end(), o ) == offs.end() ) add( E_READ_BLOB, o, 0, 0, mc::fmt( "ReadBlob(value, offset %d)", o ) );
         add( E_READ_BLOB, 0xFFFF, 0, 0, "ReadBlob(value, offset 65535)" );
         for ( int l : lens ) if ( l <= maxw ) for ( int p = 0; p != 2; ++p ) add( E_WRITE, l, p, 0, mc::fmt( "Write(value, %d octets, pattern %d)", l, p ) );
         for ( int l : lens ) if ( l <= maxw ) for ( int p = 0; p != 2; ++p ) add( E_WRITE_CMD, l, p, 0, mc::fmt( "WriteCommand(value, %d octets, pattern %d)", l, p ) );
@@ -344,6 +358,12 @@ struct World
             if ( n - o + 1 >= 2 ) pl.push_back( n - o + 1 );
             for ( int l : pl ) if ( l <= maxp ) add( E_PREPARE, o, l, o & 1, mc::fmt( "PrepareWrite(value, offset %d, %d octets, pattern %d)", o, l, o & 1 ) );
         }
+        for ( int o : big )
+            if ( std::find( offs.begin(), offs.end(), o ) == offs.end() )
+            {
+                add( E_PREPARE, o, 1, o & 1, mc::fmt( "PrepareWrite(value, offset %d, 1 octets, pattern %d)", o, o & 1 ) );
+                if ( n - o >= 2 && n - o <= maxp ) add( E_PREPARE, o, n - o, o & 1, mc::fmt( "PrepareWrite(value, offset %d, %d octets, pattern %d)", o, n - o, o & 1 ) );
+            }
         add( E_PREPARE, 0xFFFF, 1, 0, "PrepareWrite(value, offset 65535, 1 octet)" );
         add( E_EXEC, 1, 0, 0, "ExecuteWrite(1)" );
         add( E_EXEC, 0, 0, 0, "ExecuteWrite(0)" );
@@ -771,7 +791,7 @@ void run_config_mtu( const Ops& ops, int K, int P, const std::string& name, cons
         else
         {
             w.build_events( true );
-            passes.push_back( Pass{ true, MTU == 23 || !main_perm || w.num_events() > 220 ? 2 : 3 } );
+            if ( n <= 64 ) passes.push_back( Pass{ true, MTU == 23 || !main_perm || w.num_events() > 220 ? 2 : 3 } );
             passes.push_back( Pass{ false, base } );
         }
     }
@@ -848,6 +868,8 @@ int main( int argc, char** argv )
     R( K_HRW, P_NONE ) R( K_HRW, P_NR_NOTIFY ) T( K_HRW, P_WWR ) T( K_HRW, P_OWWR )
 #elif C06_GROUP == 9
     R( K_HBLOB, P_NONE ) R( K_HBLOB, P_NR_NOTIFY ) T( K_HBLOB, P_WWR ) T( K_HBLOB, P_OWWR )
+#elif C06_GROUP == 11
+    R( K_B300, P_NONE ) T( K_B300, P_NR )
 #elif C06_GROUP == 10
     R( K_HRO, P_NONE ) T( K_HRO, P_NR_NOTIFY ) R( K_HWO, P_NONE ) T( K_HWO, P_WWR ) T( K_HWO, P_OWWR ) R( K_HTYPED, P_NONE )
 #endif
